@@ -88,6 +88,11 @@ def cases(tier, seed):
                     kb = ka if same else list(rng.choice(P))
                     for lead in (len(ka), len(ka) + 1):
                         out.append(dict(kind='array-broadcast', cfg=cfg, op=op, ka=ka, kb=kb, lead=lead, container=container))
+        # the two container kinds must behave alike, per coefficient: index forms with several advanced indices, a plain
+        # number added to an array-valued multivector, assignment of a number / of one array for all coefficients
+        for sub in ('advanced-index', 'number-plus-array', 'setitem-broadcast'):
+            for _ in range(2 if tier == 'quick' else 8):
+                out.append(dict(kind='container-parity', cfg=cfg, sub=sub, ka=list(rng.choice([p for p in P if len(p) >= 2] or P))))
         for sym_op in INFIX:
             for side in ('left', 'right'):
                 for what in ('number', 'list', 'tuple', 'callable', 'nested-callable', 'list-of-callables', 'callable-returning-list', 'callable-returning-tuple'):
@@ -215,6 +220,72 @@ def run_case(desc, V):
                     claims.append(Fail(f'{tag}:result-not-indexable', f'{op}: result[{m}] raises {type(e).__name__}: {e}', fkey=fkey + '|result-not-indexable'))
                     break
                 claims += _cmp_mv(f'{tag}[{m}]', got, Rm, fkey=fkey)
+        return claims
+    if kind == 'container-parity':
+        sub = desc['sub']
+        shape = (2, 3)
+        Xn = _amv(alg, V, 'X', desc['ka'], shape, 'ndarray')
+        Xl = _amv(alg, V, 'X', desc['ka'], shape, 'list')           # same labels: the same element in the other container
+        if sub == 'advanced-index':
+            # two advanced indices separated by a slice / Ellipsis (numpy then moves the indexed axes to the front of an
+            # array that carries one more leading axis)
+            for istr in ('(0, Ellipsis, [1, 0])', '([1, 0], slice(None), [0, 2])'.replace('slice(None), ', '') if False else '([0, 1], [2, 0])', '(0, slice(None), [0, 1])'.replace('slice(None), ', 'Ellipsis, ')):
+                idx = eval(istr)
+                want = {}
+                for k, v in zip(Xl.keys(), Xl.values()):
+                    want[k] = np.asarray(v, dtype=object)[idx]
+                for cname, X in (('ndarray', Xn), ('list', Xl)):
+                    try:
+                        R = X[idx]
+                    except Exception as e:  # noqa
+                        claims.append(Fail(f'index{istr}:{cname}:raises', f'x[{istr}] on the {cname} container raises {type(e).__name__}: {e}', fkey=f'container-parity|advanced-index|{cname}'))
+                        continue
+                    for k, v in zip(R.keys(), R.values()):
+                        got = np.asarray(v, dtype=object)
+                        if got.shape != want[k].shape:
+                            claims.append(Fail(f'index{istr}:{cname}:shape[{k}]', f'x[{istr}] on the {cname} container: coefficient shape {got.shape}, per-coefficient indexing gives {want[k].shape}',
+                                               fkey=f'container-parity|advanced-index|{cname}'))
+                            break
+                        for pos, (g_, w_) in enumerate(zip(got.ravel(), want[k].ravel())):
+                            claims.append(Eq(f'index{istr}:{cname}[{k},{pos}]', g_, w_, fkey=f'container-parity|advanced-index|{cname}'))
+            claims.append(Eq('reached', 1, 1))
+            return claims
+        if sub == 'number-plus-array':
+            s_ = V.var('s')
+            ks = [k for k in desc['ka'] if k != 0] or [1]
+            for cname in ('ndarray', 'list'):
+                X = _amv(alg, V, 'Y', ks, (3,), cname)                # no scalar blade stored: the number lands on a blade X does not have
+                for tag, f in (('s+x', lambda x: s_ + x), ('x-s', lambda x: x - s_), ('s-x', lambda x: s_ - x)):
+                    R = f(X)
+                    for m in range(3):
+                        try:
+                            got = R[m]
+                        except Exception as e:  # noqa
+                            claims.append(Fail(f'{tag}:{cname}:result-not-indexable', f'({tag})[{m}] raises {type(e).__name__}: {e} ({tag} on the indexed operand works)',
+                                               fkey='container-parity|number-plus-array|result-not-indexable'))
+                            break
+                        claims += _cmp_mv(f'{tag}:{cname}[{m}]', got, f(X[m]), fkey='container-parity|number-plus-array')
+            claims.append(Eq('reached', 1, 1))
+            return claims
+        # setitem-broadcast: a number, or ONE array for all coefficients, assigned through the multivector
+        for rhs_kind in ('number', 'array'):
+            for cname in ('ndarray', 'list'):
+                X = _amv(alg, V, 'Z', desc['ka'], shape, cname)
+                before, _ = _entries(X)
+                rhs = V.var('r') if rhs_kind == 'number' else np.array([V.var('r0'), V.var('r1'), V.var('r2')], dtype=object)
+                try:
+                    X[1] = rhs
+                except Exception as e:  # noqa
+                    claims.append(Fail(f'setitem-{rhs_kind}:{cname}:raises', f'x[1] = <{rhs_kind}> on the {cname} container raises {type(e).__name__}: {e}',
+                                       fkey=f'container-parity|setitem-broadcast|{cname}'))
+                    continue
+                after, _ = _entries(X)
+                for k in desc['ka']:
+                    for ix in np.ndindex(*shape):
+                        pos = int(np.ravel_multi_index(ix, shape))
+                        want = (rhs if rhs_kind == 'number' else rhs[ix[1]]) if ix[0] == 1 else before[(k, pos)]
+                        claims.append(Eq(f'setitem-{rhs_kind}:{cname}[{k},{pos}]', after[(k, pos)], want, fkey=f'container-parity|setitem-broadcast|{cname}'))
+        claims.append(Eq('reached', 1, 1))
         return claims
     if kind == 'setitem':
         shape = tuple(desc['shape'])
